@@ -611,6 +611,12 @@ fn check_optimum_history(eps: f64, eps2: Option<f64>, hist: &[u8]) -> Option<(St
 }
 
 fn check_change_of(checker: u8, hist: &[u32]) -> Option<(String, String)> {
+    check_change_of_reinit(checker, hist, usize::MAX)
+}
+
+/// `reinit_at`: the condition is initialised again before evaluation number `reinit_at` (as a loop does with
+/// its condition every time it is entered): it starts over, i.e. the next evaluation reports a change
+fn check_change_of_reinit(checker: u8, hist: &[u32], reinit_at: usize) -> Option<(String, String)> {
     // checker: 0 = PartialEq, 1.. = DeltaEq(threshold checker - 1)
     let mut st = state_with::<TagP>(vec![]);
     st.insert(Iterations(0));
@@ -623,7 +629,10 @@ fn check_change_of(checker: u8, hist: &[u32]) -> Option<(String, String)> {
     let r = catch(|| -> Result<Vec<bool>, String> {
         c.init(&TagP, &mut st).map_err(|e| format!("{:#}", e))?;
         let mut out = vec![];
-        for v in hist {
+        for (k, v) in hist.iter().enumerate() {
+            if k == reinit_at {
+                c.init(&TagP, &mut st).map_err(|e| format!("{:#}", e))?;
+            }
             st.set_value::<Iterations>(*v);
             out.push(c.evaluate(&TagP, &mut st).map_err(|e| format!("{:#}", e))?);
         }
@@ -631,7 +640,10 @@ fn check_change_of(checker: u8, hist: &[u32]) -> Option<(String, String)> {
     });
     let mut exp = vec![];
     let mut last: Option<u32> = None;
-    for v in hist {
+    for (k, v) in hist.iter().enumerate() {
+        if k == reinit_at {
+            last = None;
+        }
         let changed = match last {
             None => true,
             Some(l) => {
@@ -647,8 +659,8 @@ fn check_change_of(checker: u8, hist: &[u32]) -> Option<(String, String)> {
         }
         exp.push(changed);
     }
-    let head = format!("C10 ChangeOf checker={}", if checker == 0 { "PartialEq" } else { "DeltaEq" });
-    let ctx = |w: String| format!("ChangeOf with {} over value history {:?}: {}", name, hist, w);
+    let head = format!("C10 ChangeOf checker={}{}", if checker == 0 { "PartialEq" } else { "DeltaEq" }, if reinit_at < hist.len() { " re-initialised" } else { "" });
+    let ctx = |w: String| format!("ChangeOf with {} over value history {:?}{}: {}", name, hist, if reinit_at < hist.len() { format!(" (initialised again before evaluation {})", reinit_at) } else { String::new() }, w);
     match r {
         Err(p) => Some((format!("{} panic", head), ctx(p))),
         Ok(Err(e)) => Some((format!("{} error", head), ctx(e))),
@@ -684,6 +696,7 @@ fn check_random_chance(p: f64, seed: u64) -> Vec<(String, String, Value)> {
     };
     let mut out = vec![];
     let (mut fired, mut total, mut undrawn_fire, mut undrawn) = (0u64, 0u64, 0u64, 0u64);
+    let (mut at_zero, mut at_max): (Option<bool>, Option<bool>) = (None, None);
     let head = format!("C10 RandomChance p={}", p);
     tape::explore(&cfg, &body, &mut |prefix, o, log| match o {
         Outcome::Done(Ok(b)) => {
@@ -693,6 +706,10 @@ fn check_random_chance(p: f64, seed: u64) -> Vec<(String, String, Value)> {
             } else if prefix.len() == 1 && (prefix[0] as u64) <= grid {
                 total += 1;
                 fired += *b as u64;
+            } else if prefix.len() == 1 && prefix[0] as u64 == grid + 1 {
+                at_zero = Some(*b);
+            } else if prefix.len() == 1 && prefix[0] as u64 == grid + 2 {
+                at_max = Some(*b);
             }
         }
         Outcome::Done(Err(e)) => out.push((format!("{} failure", head), e.clone(), json!({"chance": p, "tape": prefix}))),
@@ -708,6 +725,14 @@ fn check_random_chance(p: f64, seed: u64) -> Vec<(String, String, Value)> {
                 json!({"chance": p, "tape": []}),
             ));
         }
+        // whatever the sampling scheme: a positive probability fires on the smallest generator word, a probability
+        // below one does not fire on the largest (a probability rounded to 0 or 1 on some grid fails this)
+        if p > 0.0 && at_zero == Some(false) {
+            out.push((format!("{} never-fires", head), format!("RandomChance({}) does not fire even when the generator returns its smallest word", p), json!({"chance": p, "tape": []})));
+        }
+        if p < 1.0 && at_max == Some(true) {
+            out.push((format!("{} always-fires", head), format!("RandomChance({}) fires even when the generator returns its largest word", p), json!({"chance": p, "tape": []})));
+        }
     } else if undrawn > 0 {
         // decided without randomness: only legitimate for p = 0 or p = 1
         let always = undrawn_fire == undrawn;
@@ -721,7 +746,7 @@ fn check_random_chance(p: f64, seed: u64) -> Vec<(String, String, Value)> {
 
 pub fn run(rep: &mut Report) {
     let thorough = rep.tier == Tier::Thorough;
-    rep.alpha("LessThanN over iterations / evaluations / an f64 lens: n in 0..6 x value in 0..8, and over the f64 lens with n in {-2,-1.5,..,2} x value in {-3,-2.5,..,3}; loops `while LessThanN::iterations(n)` with counting body and wrapped condition, n in 0..5; two such loops, the second nested in the first through a scope or following it in a scope of its own, n, m in 0..4");
+    rep.alpha("LessThanN over iterations / evaluations / an f64 lens: n in 0..6 x value in 0..8, n in 7..220 (thorough: 2000) x value in {n-1, n, n+1}, loops of 49, 98, 103, 107, 161 passes, and over the f64 lens with n in {-2,-1.5,..,2} x value in {-3,-2.5,..,3}; loops `while LessThanN::iterations(n)` with counting body and wrapped condition, n in 0..5; two such loops, the second nested in the first through a scope or following it in a scope of its own, n, m in 0..4");
     rep.alpha("EveryN: n in 1..6 x value in 0..13; OptimumReached: epsilon in {0,1e-9,1/2} x best in {none, opt, opt+eps, next double above opt+eps, opt+1, +inf}, negative epsilon at construction");
     rep.alpha("ChangeOf: all value histories of length <= 5 (quick) / 6 (thorough) over {0,1,2} with PartialEqChecker and over {0..4} with DeltaEqChecker(0|1|2)");
     rep.alpha("RandomChance(p), p in {0,1/4,1/2,3/4,1}: the decisive generator word swept over 256 evenly spaced values, 0 and 2^64-1; the share of firing words must be p (+- 2/256)");
@@ -752,6 +777,28 @@ pub fn run(rep: &mut Report) {
             if let Some((s, d)) = check_loop(n, empty) {
                 p.violate(s, d, json!({"kind": "loop", "n": n, "empty": empty}));
             }
+        }
+    }
+    // bounds far beyond the grid: exactly n is not "less than n", whatever n (49, 98, 103, 107, ... are the
+    // counts for which n * (1/n) rounds below 1)
+    for kind in 0..3u8 {
+        for n in 7..=(if thorough { 2000u32 } else { 220 }) {
+            for v in [n - 1, n, n + 1] {
+                p.transitions += 1;
+                p.traces += 1;
+                p.states += 1;
+                if let Some((s, d)) = check_less_than(kind, n, v) {
+                    p.violate(s, d, json!({"kind": "less", "lens": kind, "n": n, "v": v}));
+                }
+            }
+        }
+    }
+    for n in [49u32, 98, 103, 107, 161] {
+        p.transitions += (2 * n + 1) as u64;
+        p.traces += 1;
+        p.states += 1;
+        if let Some((s, d)) = check_loop(n, false) {
+            p.violate(s, d, json!({"kind": "loop", "n": n, "empty": false}));
         }
     }
     for n2 in -4..=4i32 {
@@ -853,13 +900,29 @@ pub fn run(rep: &mut Report) {
             }
         }
     }
+    // re-initialisation in the middle of a history (histories of length <= 4, every position)
+    for l in 2..=4usize {
+        for h in sequences(3, l) {
+            let hist: Vec<u32> = h.iter().map(|x| *x as u32).collect();
+            for at in 1..l {
+                for t in [0u8, 2] {
+                    p.transitions += l as u64;
+                    p.traces += 1;
+                    p.states += 1;
+                    if let Some((s, d)) = check_change_of_reinit(t, &hist, at) {
+                        p.violate(s, d, json!({"kind": "change", "checker": t, "hist": hist, "reinit": at}));
+                    }
+                }
+            }
+        }
+    }
     p.outcome("histories-with-change");
     p.outcome("histories-without-change");
     p.sample(json!({"checker": "PartialEqChecker", "history": [1, 1, 2, 2, 1], "expected": [true, false, true, false, true]}));
     rep.push(p);
 
     let mut p = Part::new("random-chance.word-threshold");
-    for pr in [0.0, 0.25, 0.5, 0.75, 1.0] {
+    for pr in [0.0, 0.25, 0.5, 0.75, 1.0, 1.0 / 3.0, 0.0003, 1.0 / 1536.0, 0.9997, 0.37] {
         let v = check_random_chance(pr, seed);
         p.transitions += 258;
         p.traces += 258;
@@ -941,7 +1004,7 @@ pub fn replay(case: &Value) -> Result<Vec<(String, String)>, String> {
         }
         "change" => {
             let hist: Vec<u32> = case["hist"].as_array().ok_or("no hist")?.iter().map(|x| x.as_u64().unwrap() as u32).collect();
-            check_change_of(u("checker") as u8, &hist).into_iter().collect()
+            check_change_of_reinit(u("checker") as u8, &hist, case["reinit"].as_u64().map(|x| x as usize).unwrap_or(usize::MAX)).into_iter().collect()
         }
         "chance" => check_random_chance(case["chance"].as_f64().unwrap_or(0.0), u("seed")).into_iter().map(|(s, d, _)| (s, d)).collect(),
         "formula" => {
